@@ -21,6 +21,78 @@ func (tr *Trans) safety(kind string, in ssa.Instruction, goal Term) {
 		Pos: tr.posOf(in), Fn: tr.label, Props: tr.safetyProps()})
 }
 
+// nilDerefCheck: a pointer that came back from a call the verifier understands (a callee of the repository with a contract) or out of a map must be shown non-nil before a field of it is touched. Pointers that are
+// parameters, receivers, fields or results of contract-less calls are assumed non-nil (listed as an assumption).
+func (tr *Trans) nilDerefCheck(in ssa.Instruction, p ssa.Value, ref Term) {
+	if !tr.g.opts.Safety || tr.g.dry > 0 {
+		return
+	}
+	if !tr.knownPtrSource(p, 0) {
+		return
+	}
+	tr.safety("nilderef", in, not(eq(ref, intT(0))))
+}
+
+// knownPtrSource: every way the pointer can have been produced is one the verifier has facts about -- the result of a
+// repository callee with a contract, a map lookup, or nil itself (at least one non-nil source is required by the caller
+// through the phi case).
+func (tr *Trans) knownPtrSource(p ssa.Value, depth int) bool {
+	if depth > 4 {
+		return false
+	}
+	src := p
+	if ex, ok := src.(*ssa.Extract); ok {
+		src = ex.Tuple
+	}
+	switch c := src.(type) {
+	case *ssa.Call:
+		if sc := c.Call.StaticCallee(); sc != nil && inRepo(sc) {
+			// an inlined helper is checked in place (its own dereferences generate these obligations); what it
+			// returns may be the unconstrained result of an external call, so only contract results are checked
+			return tr.g.calleesUsed[sc.String()] == "contract"
+		}
+	case *ssa.Lookup:
+		if mt, ok := under(c.X.Type()).(*types.Map); ok {
+			if mk := mapKeys(mt); mk != nil && len(mk.vals) > 0 {
+				return true
+			}
+		}
+	case *ssa.Phi:
+		some := false
+		for _, e := range c.Edges {
+			if k, ok := e.(*ssa.Const); ok && k.IsNil() {
+				continue
+			}
+			if !tr.knownPtrSource(e, depth+1) {
+				return false
+			}
+			some = true
+		}
+		return some
+	}
+	return false
+}
+
+// recvNilCheck: calling a pointer-receiver method of the repository on a pointer from a known source: the receiver must
+// be non-nil unless the method itself compares its receiver with nil.
+func (tr *Trans) recvNilCheck(in ssa.Instruction, c *ssa.CallCommon, args []Val) {
+	fn, ok := c.Value.(*ssa.Function)
+	if !ok || fn.Signature.Recv() == nil || len(fn.Params) == 0 || len(c.Args) == 0 || len(args) == 0 || len(args[0].C) != 1 {
+		return
+	}
+	if _, isPtr := fn.Signature.Recv().Type().(*types.Pointer); !isPtr || !inRepo(fn) {
+		return
+	}
+	for _, b := range fn.Blocks {
+		for _, i := range b.Instrs {
+			if bo, ok := i.(*ssa.BinOp); ok && (bo.X == fn.Params[0] || bo.Y == fn.Params[0]) {
+				return
+			}
+		}
+	}
+	tr.nilDerefCheck(in, c.Args[0], args[0].C[0])
+}
+
 func (tr *Trans) safetyProps() []string {
 	return []string{"C13"}
 }
@@ -69,6 +141,7 @@ func (tr *Trans) instr(in ssa.Instruction) {
 			tr.vals[x] = Val{T: x.Type(), Addr: &Addr{Kind: AddrOpaque, T: fv.Type()}}
 			return
 		}
+		tr.nilDerefCheck(x, x.X, base.C[0])
 		if isObjType(fv.Type()) {
 			// taking the address of an embedded struct/array field counts as an access for the lock discipline
 			write := false
